@@ -22,6 +22,7 @@ def instantiate(crate_name):
         if os.path.exists(os.path.join(dst, d)):
             shutil.rmtree(os.path.join(dst, d))
         shutil.copytree(os.path.join(src, d), os.path.join(dst, d))
+    shutil.copy(os.path.join(VERIF, 'harness', 'common', 'runner.rs'), os.path.join(dst, 'src', 'runner.rs'))
     tmpl = open(os.path.join(src, 'Cargo.toml.in')).read().replace('@REPO@', REPO)
     with open(os.path.join(dst, 'Cargo.toml'), 'w') as f:
         f.write(tmpl)
